@@ -475,6 +475,30 @@ pub fn inputs_c17(r: &mut Rng, n: usize, _tier: &str, out: &mut dyn Write) {
             }
         }
     }
+    // word-size block: every view at the epochs whose count (from the scale's own zero, from 1900 TAI, from the MJD and
+    // UNIX origins) sits on 2^63 / 2^64 ns, 2^31 / 2^32 s or 2^15 / 2^16 days, +/- 1 ns
+    if n >= 5000 {
+        let mut k = 0usize;
+        let mjd0 = -15_020 * DAY; // MJD 0 = 1858-11-17 in the count from 1900
+        let unix0 = 25_567 * DAY; // 1970-01-01
+        for th in [1i128 << 63, 1i128 << 64, (1i128 << 31) * SEC, (1i128 << 32) * SEC, (1i128 << 15) * DAY, (1i128 << 16) * DAY] {
+            for sgn in [1i128, -1] {
+                for origin in [0i128, mjd0, unix0, mjd0 - DAY * 2_400_000 - DAY / 2] {
+                    for dt in [-1i128, 0, 1] {
+                        let ts = NONDYN[k % NONDYN.len()];
+                        let inst = origin + sgn * th + dt; // TAI-like count from 1900
+                        let e = (inst - if origin == 0 { 0 } else { ref_off(ts) }).clamp(-3_700_000 * DAY, 3_700_000 * DAY);
+                        let es = format!("{}:{}", dstr(e), ts);
+                        writeln!(out, "acc17 {} {}", ACCD[k % ACCD.len()], es).unwrap();
+                        writeln!(out, "accf {} {}", ACCF[k % ACCF.len()], es).unwrap();
+                        writeln!(out, "accf {} {}", ACCF[(k * 7 + 3) % ACCF.len()], es).unwrap();
+                        k += 1;
+                        n = n.saturating_sub(3);
+                    }
+                }
+            }
+        }
+    }
     for k in 0..n {
         if k % 12 == 11 {
             // from_mjd_X / from_jde_X wrappers and to_mjd_tai(unit) / to_jde_tai(unit) / to_unix(unit) against the named views
@@ -690,6 +714,17 @@ pub fn inputs_c15(r: &mut Rng, n: usize, tier: &str, out: &mut dyn Write) {
         }
         .max(0);
         writeln!(out, "series_dyn {} {}:{} {} {} {} {}", r.below(2), dstr(start), a, dstr(span), b, dstr(step), cap + 5).unwrap();
+    }
+    for _ in 0..(n / 300).max(2) {
+        // word-size class: the offsets k x step cross 2^63 or 2^64 ns (a span of three to six centuries), or the items
+        // themselves cross those counts (start near -2^63 / 0 / 2^63 - span)
+        let a = *r.pick(&NONDYN);
+        let w = *r.pick(&[1i128 << 63, 1i128 << 64]);
+        let count = 20 + r.below((cap as u64 - 20).min(280)) as i128;
+        let step = w / count + r.range_i64(-3, 3) as i128;
+        let span = match r.below(3) { 0 => w + r.range_i64(-2, 2) as i128, 1 => w + step * r.range_i64(1, 10) as i128, _ => w * 5 / 4 };
+        let start = match r.below(4) { 0 => 0, 1 => -w, 2 => -w / 2, _ => (r.range_i64(-100_000, 100_000) as i128) * DAY };
+        writeln!(out, "series {} {}:{} {} {} {} {}", r.below(2), dstr(start), a, dstr(span), a, dstr(step), cap + 5).unwrap();
     }
     for k in 0..(n / 20).max(1) {
         // every 10th series starts in ET or TDB (end in the same scale: the items are plain arithmetic on the elapsed time)
